@@ -399,6 +399,41 @@ func checkCollection(r *vp.Recorder, ps []proto, distinctIDs bool) []byte {
 			return nil
 		}
 	}
+	// Metadata is a sort.Interface of its protocols (Len, Less, Swap are
+	// exported): whatever order a caller has put them in, also on metadata that
+	// was decoded before, the encoding is the canonical one
+	if distinctIDs && len(ps) >= 2 {
+		for _, how := range []string{"reversed", "swap-ends", "decoded-then-reversed"} {
+			m2 := mdCtx.New()
+			if how == "decoded-then-reversed" {
+				if err := m2.UnmarshalBinary(append([]byte(nil), got...)); err != nil {
+					break // judged below
+				}
+			} else {
+				fresh := make([]metadata.Protocol, len(ps))
+				for i, p := range ps {
+					fresh[i] = p.mk()
+				}
+				m2 = mdCtx.New(fresh...)
+			}
+			switch how {
+			case "swap-ends":
+				m2.Swap(0, m2.Len()-1)
+			default:
+				sort.Sort(sort.Reverse(&m2))
+			}
+			var again []byte
+			var aerr error
+			if p, m := vp.Guard(func() { again, aerr = m2.MarshalBinary() }); p {
+				r.Violation("encode:panic", key, m, nil)
+				return nil
+			}
+			if aerr != nil || !bytes.Equal(again, want) {
+				r.Violation("encode:not-canonical-after-the-caller-reordered-the-protocols:"+how, key, fmt.Sprintf("[%s] %s through the metadata's own Swap/Less and encoded: err %v\n got  %x\n want %x", labels(ps), how, aerr, again, want), nil)
+				return nil
+			}
+		}
+	}
 	// decode
 	// the decoder is handed a buffer of the caller's, which the caller reuses
 	// as soon as the call has returned (encoding.BinaryUnmarshaler: "must copy
@@ -652,7 +687,7 @@ func firstLine(s string) string {
 
 func TestCheck(t *testing.T) {
 	r := vp.New("C11", "exploration",
-		"collections: every subset of 8 distinct protocol IDs (bitswap, graphsync-filecoin, gateway, 5 unknown codes) of size 1..N in every construction order, those of size <=3 also in metadata contexts derived once and twice from the default one (WithProtocol); every variant combination (8 graphsync values, unknown payload lengths, bitswap and gateway handed over as pointer and by value) for subsets of size <=K in sorted and reversed order; collections with repeated IDs; graphsync-filecoin encodings are compared with an encoding written down without the library; every ordered pair of 7 piece CIDs that share digest or codec x flags encoded back to back (A, B, A); the protocols' own ReadFrom through 6 kinds of reader (all at once, byte-wise, halves, chunks of 7, last data together with EOF), alone and followed by other bytes, the consumed count compared with the length of what was decoded; the buffer handed to the decoder is overwritten by the caller right after the call, before the decoded metadata is compared. Decoder: for every corpus encoding every single-byte substitution, every truncation, every boundary varint written at every byte offset over 1..3 bytes, unknown-protocol headers declaring every length of the systematic set (2^k-1, 2^k, 2^k+1 for all k; the 25 values below 2^63 and below 2^64; the size limit +-12) for 6 codes x 3 tails; unknown payloads of every length 0..MaxMetadataSize; graphsync-filecoin with identity piece CIDs of 0..300 digest bytes; two-protocol out-of-order concatenations, and all byte strings of length <=2; after every rejected input the worker decodes a fixed valid collection and compares it. Non-trivial: collections of >=2 protocols; decoder inputs other than the unmodified corpus.",
+		"collections: every subset of 8 distinct protocol IDs (bitswap, graphsync-filecoin, gateway, 5 unknown codes) of size 1..N in every construction order, those of size <=3 also in metadata contexts derived once and twice from the default one (WithProtocol); every variant combination (8 graphsync values, unknown payload lengths, bitswap and gateway handed over as pointer and by value) for subsets of size <=K in sorted and reversed order; collections with repeated IDs; the protocols of a collection reordered by the caller through the metadata's own sort.Interface (reversed, ends swapped, also on decoded metadata) before encoding; graphsync-filecoin encodings are compared with an encoding written down without the library; every ordered pair of 7 piece CIDs that share digest or codec x flags encoded back to back (A, B, A); the protocols' own ReadFrom through 6 kinds of reader (all at once, byte-wise, halves, chunks of 7, last data together with EOF), alone and followed by other bytes, the consumed count compared with the length of what was decoded; the buffer handed to the decoder is overwritten by the caller right after the call, before the decoded metadata is compared. Decoder: for every corpus encoding every single-byte substitution, every truncation, every boundary varint written at every byte offset over 1..3 bytes, unknown-protocol headers declaring every length of the systematic set (2^k-1, 2^k, 2^k+1 for all k; the 25 values below 2^63 and below 2^64; the size limit +-12) for 6 codes x 3 tails; unknown payloads of every length 0..MaxMetadataSize; graphsync-filecoin with identity piece CIDs of 0..300 digest bytes; two-protocol out-of-order concatenations, and all byte strings of length <=2; after every rejected input the worker decodes a fixed valid collection and compares it. Non-trivial: collections of >=2 protocols; decoder inputs other than the unmodified corpus.",
 		"unknown protocols are constructed the way the decoder builds them (payload holds code, length prefix and data)",
 		"collections with repeated IDs are only required to be ID-sorted and to round-trip as a multiset (order among equal IDs is not defined by the statement)",
 		"allocation bound used: 64 KiB + 64 x input length, measured with runtime/metrics /gc/heap/allocs:bytes (span-granular for small objects)",
